@@ -111,6 +111,7 @@ type Result struct {
 	Violations []Violation        `json:"violations,omitempty"`
 	Stats      map[string]float64 `json:"stats,omitempty"`
 	Hash       string             `json:"hash,omitempty"`
+	Digest     string             `json:"digest,omitempty"` // hash of everything observed (streams, decisions): compared by the determinism self-test
 	Sample     json.RawMessage    `json:"sample,omitempty"`
 	WallMS     float64            `json:"wall_ms"`
 }
